@@ -58,7 +58,7 @@ CRATE_FINDERS = {
 }
 # further finders of a unit (integration tests driving the binary)
 EXTRA_FINDERS = {"log": [("tests/", "units/log/finder_show_test.rs"), ("tests/", "units/log/finder_tail_test.rs")], "config": [("tests/", "units/config/finder_generate_test.rs")],
-                 "tracking": [("src/app/run.rs", "units/tracking/finder_setup_test.rs")]}
+                 "tracking": [("src/app/run.rs", "units/tracking/finder_setup_test.rs"), ("src/app/analyze.rs", "units/checkpoint/finder_test.rs")]}
 # units whose only finder is an integration test
 CRATE_FINDERS["cli"] = ("tests/", "units/cli/finder_outdelete_test.rs")
 CRATE_FINDERS["show"] = ("tests/", "units/show/finder_test.rs")
